@@ -48,15 +48,19 @@ Definition digits_str (ds : list nat) : pystr := map digit_char ds.
 Definition marker_str (m : marker) : pystr :=
   match m with MDigit d => [digit_char d] | MPct ds => "%"%char :: digits_str ds end.
 Definition is_pct (m : marker) : bool := match m with MPct _ => true | MDigit _ => false end.
-(** a one-digit marker directly after a %nn marker (no symbol between) is written %0d *)
+(** a one-digit marker directly after a marker written in % form (no symbol between) is written %0d,
+    which is itself a % form *)
+Definition pct_form (prev_pct : bool) (o : option sym) (m : marker) : bool :=
+  is_pct m || (prev_pct && match o with None => true | Some _ => false end).
+Definition ring_str (prev_pct : bool) (o : option sym) (m : marker) : pystr :=
+  match o, m with
+  | None, MDigit d => if prev_pct then "%"%char :: "0"%char :: [digit_char d] else [digit_char d]
+  | _, _ => osym_str o ++ marker_str m
+  end.
 Fixpoint rings_str (prev_pct : bool) (r : list (option sym * marker)) : pystr :=
   match r with
   | [] => []
-  | (o, m) :: t =>
-      (match o, m with
-       | None, MDigit d => if prev_pct then "%"%char :: "0"%char :: [digit_char d] else [digit_char d]
-       | _, _ => osym_str o ++ marker_str m
-       end) ++ rings_str (is_pct m) t
+  | (o, m) :: t => ring_str prev_pct o m ++ rings_str (pct_form prev_pct o m) t
   end.
 Definition mult_str (m : option (list nat)) : pystr :=
   match m with Some ds => "|"%char :: digits_str ds | None => [] end.
